@@ -564,7 +564,11 @@ func concurrent(rec *vr.Rec, seed int64) {
 					iv := &inv{idx: -2, path: seenPath}
 					cur.Store(m.Message, iv)
 					t0 := clock.Add(1)
-					router.ServeCOAP(rw{}, m)
+					if e := serveRecovered(router, m); e != nil {
+						rec.Violation("C17/panic", fmt.Sprint(e), map[string]any{"part": "concurrent", "path": seenPath})
+						cur.Delete(m.Message)
+						return
+					}
 					t1 := clock.Add(1)
 					cur.Delete(m.Message)
 					dispatched.Add(1)
@@ -616,4 +620,12 @@ func concurrent(rec *vr.Rec, seed int64) {
 		rec.Count("concurrent_dispatches", dispatched.Load())
 		rec.Count("concurrent_registration_changes", clock.Load())
 	}
+}
+
+// serveRecovered dispatches m and turns a panic of the router into a value: one broken dispatch must not take the
+// verdicts of all the others with it.
+func serveRecovered(router *mux.Router, m *mux.Message) (p any) {
+	defer func() { p = recover() }()
+	router.ServeCOAP(rw{}, m)
+	return nil
 }
